@@ -551,13 +551,13 @@ def _object(args):
 
 
 def plan_objects(seed, quick):
-    n_sess, n_undo, n_fresh, n_alt, n_plain = (70, 50, 24, 12, 16) if quick else (700, 500, 200, 80, 120)
+    n_sess, n_undo, n_fresh, n_alt, n_plain = (70, 50, 24, 12, 16) if quick else (420, 320, 120, 60, 80)
     out = []
     i = 0
     for variant, n in (("session", n_sess), ("session+undo", n_undo), ("fresh", n_fresh), ("fresh-tuple", n_alt // 2),
                        ("fresh-ndarray", n_alt - n_alt // 2), ("plain", n_plain)):
         for _ in range(n):
-            out.append((seed, i, variant, 3 if quick else 5))
+            out.append((seed, i, variant, 3 if quick else 4))
             i += 1
     return out
 
